@@ -114,6 +114,7 @@ class Gen(object):
                 maximum_bits = need
             maximum_bits = min(64, maximum_bits)
         e = Enum(name, vals, is_signed, maximum_bits)
+        e.enum_case = r.choice([None, None, None, "kCamelCase", "kCamelCase", "SHOUTY_CASE, kCamelCase", "kCamelCase, SHOUTY_CASE"])
         e.need_bits = need
         return e
 
